@@ -46,8 +46,49 @@ pub unsafe extern "C" fn getrandom(buf: *mut u8, len: usize, flags: u32) -> isiz
             let _ = ENTROPY_DRAWS.try_with(|c| c.set(c.get() + 1));
             len as isize
         }
-        None => libc::syscall(libc::SYS_getrandom, buf, len, flags) as isize,
+        None => raw_syscall(libc::SYS_getrandom, buf as usize, len, flags as usize, 0, 0, 0) as isize,
     }
+}
+
+/// The kernel entry itself (x86-64 Linux), with libc's convention for errors.
+unsafe fn raw_syscall(num: libc::c_long, a1: usize, a2: usize, a3: usize, a4: usize, a5: usize, a6: usize) -> libc::c_long {
+    let ret: isize;
+    core::arch::asm!(
+        "syscall",
+        inlateout("rax") num as isize => ret,
+        in("rdi") a1,
+        in("rsi") a2,
+        in("rdx") a3,
+        in("r10") a4,
+        in("r8") a5,
+        in("r9") a6,
+        lateout("rcx") _,
+        lateout("r11") _,
+        options(nostack)
+    );
+    if (-4095..0).contains(&ret) {
+        *libc::__errno_location() = (-ret) as i32;
+        -1
+    } else {
+        ret as libc::c_long
+    }
+}
+
+/// Interposes libc's `syscall`: the `getrandom` crate (behind `CsRng::from_entropy`, hence behind
+/// `Covercrypt::default()`) asks the kernel through `syscall(SYS_getrandom, ..)` rather than
+/// through the `getrandom` function, and a library instance that seeds *itself* must still get
+/// its seed from the run's entropy stream. Every other call is passed to the kernel unchanged
+/// (on x86-64 a variadic C function receives its arguments in the same registers).
+///
+/// # Safety
+/// Same contract as libc's `syscall`.
+#[cfg(all(target_arch = "x86_64", target_os = "linux"))]
+#[no_mangle]
+pub unsafe extern "C" fn syscall(num: libc::c_long, a1: usize, a2: usize, a3: usize, a4: usize, a5: usize, a6: usize) -> libc::c_long {
+    if num == libc::SYS_getrandom && SIM_ENTROPY.try_with(|s| s.get()).ok().flatten().is_some() {
+        return getrandom(a1 as *mut u8, a2, a3 as u32) as libc::c_long;
+    }
+    raw_syscall(num, a1, a2, a3, a4, a5, a6)
 }
 
 /// Installs a simulation entropy seed in the current thread (for helper threads of a run).
